@@ -145,6 +145,15 @@ CLAIMED = {
          'shapes x 3 APIs x scoped/unscoped, enumerated completely on every run.',
          BASE + 'Partial: instance class, functools.wraps metadata and pickling are CPython\'s; they are checked on the real code only '
          '(finite table), the theorems cover the registration state machine and the decision table.'),
+ 'C19': ('Theorems resolve_follows_attrs / unbound_first_is_name_error / follow_append / same_object_same_key / boundName_forms / '
+         'import_binds / gin_is_reserved / enabling_rules / include_isolated hold for every object graph, symbol table and statement list; '
+         'the mirror (per-file symbol table, attribute-chain resolution, bindings keyed by the resolved object) is tied to gin.config by '
+         'generated files over a real package tree (harness/c19pkg: packages, re-exported names, nested class, methods, colliding leaf '
+         'names) with random import forms, aliases, spellings, includes and sequential parse calls, plus a malformed stream; oracles on '
+         'the real code: bindings sit on the intended Python objects, and config_str() parsed back gives the same per-object bindings.',
+         BASE + 'Partial: the object graph is extracted from the real package by introspection; __import__/getattr are CPython\'s; '
+         'reference re-initialisation after re-registration and the ImportManager\'s re-aliasing are covered by the round-trip oracle only, '
+         'not by theorems; every generated file enables dynamic registration. D19 is a recorded finding.'),
 }
 REASON_PENDING = 'check not built yet in this round; planned with the same technique (DESIGN.md §6, §9) - nothing is claimed until the check exists'
 
